@@ -102,9 +102,12 @@ theorem C12_cleanup_at_quiescence_partial (tbl : Table) (w : Worker) (ops : List
     (ops.foldl (Worker.applyOp tbl) w).delayed = [] ∧
     ∀ t ∈ (ops.foldl (Worker.applyOp tbl) w).tasks,
       t.addr ∈ (ops.foldl (Worker.applyOp tbl) w).cancelled ∨
-      ∀ c ∈ t.crumbs, c ∉ (ops.foldl (Worker.applyOp tbl) w).cancelled :=
-  cleanup_worker tbl w ops
-    ⟨by rw [h0]; exact List.nodup_nil, by intro t ht; rw [h0] at ht; cases ht, fun _ _ => h1⟩ hb hr
+      ∀ c ∈ t.crumbs, c ∉ (ops.foldl (Worker.applyOp tbl) w).cancelled := by
+  refine cleanup_worker tbl w ops ⟨?_, ?_, fun _ _ => h1⟩ hb hr
+  · rw [h0]; exact List.nodup_nil
+  · intro t ht
+    rw [h0] at ht
+    cases ht
 
 /-- **Completion-time clean-up** (holds since 6ca9fa1): when a task returns and
     `_process_task_completion` does not raise, every mailbox the task still owned - those it
